@@ -28,7 +28,7 @@ _WRAPPERS = {'ImplicitCastExpr', 'ParenExpr', 'MaterializeTemporaryExpr',
 
 
 class N(object):
-    __slots__ = ('kind', 'name', 'type', 'op', 'value', 'ref', 'refid', 'reftype', 'arrow',
+    __slots__ = ('dtype', 'kind', 'name', 'type', 'op', 'value', 'ref', 'refid', 'reftype', 'arrow',
                  'kids', 'line', 'id', 'parent', 'raw_kind', 'init_style', 'is_postfix',
                  'has_else', 'cast')
 
@@ -86,6 +86,7 @@ def _convert(j, tracker, parent=None):
     n.name = j.get('name')
     t = j.get('type')
     n.type = t.get('qualType') if isinstance(t, dict) else None
+    n.dtype = (t.get('desugaredQualType') or t.get('qualType')) if isinstance(t, dict) else None
     n.op = j.get('opcode')
     n.value = j.get('value')
     n.cast = j.get('castKind')
@@ -107,7 +108,7 @@ def _convert(j, tracker, parent=None):
             k = N()
             k.kind = 'Null'
             k.raw_kind = 'Null'
-            k.name = k.type = k.op = k.value = k.ref = k.refid = k.reftype = None
+            k.name = k.type = k.dtype = k.op = k.value = k.ref = k.refid = k.reftype = None
             k.arrow = False
             k.line = tracker.line
             k.id = None
@@ -163,7 +164,7 @@ def _split_docs(txt):
     return docs
 
 
-FILTERS = ('parse_sentence', 'parsing::', 'combinator_result', 'config')
+FILTERS = ('parse_sentence', 'parsing::', 'combinator_result', 'config', 'utils::argmax')
 
 
 def load(repo):
@@ -199,11 +200,18 @@ def load(repo):
                 continue
             if flt == 'combinator_result' and not (n.kind == 'CXXRecordDecl' and name == 'combinator_result'):
                 continue
+            if flt == 'utils::argmax':
+                if n.kind != 'FunctionTemplateDecl':
+                    continue
+                inst = [k for k in n.kids if k.kind == 'FunctionDecl' and any(c.kind == 'TemplateArgument' for c in k.kids)]
+                if inst:
+                    decls['utils::argmax'] = inst[-1]
+                continue
             # keep the definition (the one with a body / fields)
             if name not in decls or len(list(n.walk())) > len(list(decls[name].walk())):
                 decls[name] = n
     for need in ('parse_sentence', 'cell_item', 'chart', 'matrix', 'operator<',
-                 'compute_outside_probabilities', 'config', 'combinator_result'):
+                 'compute_outside_probabilities', 'config', 'combinator_result', 'utils::argmax'):
         if need not in decls:
             raise AnalysisError('%s: declaration %r not found by clang' % (HEADER, need))
     try:
